@@ -1,4 +1,5 @@
 import ThruVerif.Model.Routing
+import ThruVerif.Gen.Shapes
 import Mathlib.Data.List.Nodup
 /-!
 # C10 — Signaling messages stay inside their session and carry the true sender
@@ -1054,5 +1055,17 @@ example : Reachable 4 demoState := reachable_run (Reachable.init) demo (s' := de
 
 example : demoState.recvd = [(2, ⟨10, 20, 7, 1, 1, 0⟩), (4, ⟨10, 0, 5, 3, 2, 0⟩), (5, ⟨10, 20, 6, 1, 1, 2⟩)] ∧
     demoState.errs = [(1, 77)] ∧ demoState.queue = [] ∧ demoState.closedCh = [2] := by decide
+
+/-! ## the routing decisions of the source, as regenerated on this run (xlate, `Gen/Shapes.lean`) -/
+
+open TV.Gen.Shapes in
+/-- the handler overwrites `from` with the connection's peer id, routes addressed envelopes by (the connection's session,
+the envelope's `to`) and unaddressed ones to the connection's session except the connection's peer id; the server's own
+broadcasts go to the connection's session. The model's `msg` step was transcribed from exactly these expressions. -/
+theorem C10_source_shapes :
+    handler_from_overwrite = ["peerID"] ∧
+    handler_sendto_args = ["sess.ID, env.To, env"] ∧
+    handler_bcast_except_args = ["sess.ID, peerID, env"] ∧
+    handler_bcast_args = ["sess.ID, peerJoinedEnv", "sess.ID, peerLeftEnv"] := by decide
 
 end TV.C10
